@@ -5,6 +5,7 @@ import OV.Model.C08Reduce
 import OV.Model.C08IntArith
 import OV.Model.C08Creation
 import OV.Model.C08Attr
+import OV.Model.C08Misc
 /-! Helper lemmas for `OV.Props.C08` (core Lean only; `omega`, `simp`, case analysis). -/
 namespace OV.Lemmas.C08
 open OV.C08 OV.C08.IntArith
@@ -938,5 +939,963 @@ theorem col2im_pads_scalar (w : Int) : col2im.pads [w] = [w, w, w, w] := by
   simp [col2im.pads, pyMul]
 
 end attr
+
+theorem specSizes_zero (c : Nat) : split.specSizes 0 c = some [0] := by
+  unfold split.specSizes
+  by_cases hc : c = 0
+  · simp [hc]
+  · have h1 : (c - 1) / c = 0 := by
+      apply Nat.div_eq_of_lt; omega
+    simp [hc, h1]
+
+theorem split_agrees (s : Shape) (size dim : Int) (out : List Shape)
+    (h : split.spec s size dim = some out) : split.model s size dim = some out := by
+  unfold split.spec at h
+  unfold split.model
+  split at h
+  · simp at h
+  · next hneg =>
+    by_cases hr : s.length = 0
+    · simp [hr] at h
+    · simp only [hr, if_false] at h
+      cases ha : normAxis s.length dim with
+      | none => simp [ha] at h
+      | some a =>
+        simp only [ha] at h ⊢
+        by_cases hd : s.getD a 0 = 0
+        · simp only [hd, if_true]
+          rw [hd, specSizes_zero] at h
+          simp only [Option.map_some, List.map_cons, List.map_nil] at h
+          have := setAt_getD_self s a
+          rw [hd] at this
+          rw [this] at h
+          exact h
+        · simp only [hd, hneg, if_false]
+          by_cases hc : size.toNat = 0
+          · exfalso
+            simp only [split.specSizes, hc, if_true, hd, if_false, Option.map_none] at h
+            exact absurd h (by simp)
+          · rw [split_sizes _ _ (by omega) (by omega)]
+            exact h
+
+theorem flip_norm (d : Int) (hd0 : 0 < d) (hd : d < INT64_MAX) :
+    (sliceNorm d (-1) INT64_MIN (-1)).1 = d - 1 := by
+  unfold sliceNorm clampI INT64_MIN INT64_MAX at *
+  simp only [show ¬ ((-1:Int) > 0) from by decide, show ((-1:Int) < 0) from by decide, if_true, if_false]
+  simp only [Int.min_def, Int.max_def]
+  (repeat' split) <;> omega
+
+theorem flip_idx (d : Nat) (hd : (d : Int) < INT64_MAX) : flip.modelIdx d = flip.specIdx d := by
+  unfold flip.modelIdx flip.specIdx sliceIdx
+  have hlen : sliceLen d (-1) INT64_MIN (-1) = d := by
+    have := flip_len d (by omega) hd
+    omega
+  apply List.ext_getElem
+  · simp [hlen]
+  · intro i h1 h2
+    have hi : i < d := by simpa [hlen] using h1
+    simp only [List.getElem_map, List.getElem_range, List.getElem_reverse, List.length_range]
+    rw [flip_norm d (by omega) hd]
+    omega
+
+theorem sliceNorm_pos (d a b : Int) (hd : 0 ≤ d) (ha0 : 0 ≤ a) (ha : a ≤ d) (hb : d ≤ b) :
+    sliceNorm d a b 1 = (a, d) := by
+  unfold sliceNorm clampI
+  simp only [show (1:Int) > 0 from by decide, if_true, Int.min_def, Int.max_def]
+  have h1 : ¬ a < 0 := by omega
+  have h2 : ¬ b < 0 := by omega
+  simp only [h1, h2, if_false]
+  refine Prod.ext ?_ ?_ <;> simp only <;> (repeat' split) <;> omega
+
+theorem sliceNorm_pos' (d b : Int) (hd : 0 ≤ d) (hb0 : 0 ≤ b) (hb : b ≤ d) :
+    sliceNorm d 0 b 1 = (0, b) := by
+  unfold sliceNorm clampI
+  simp only [show (1:Int) > 0 from by decide, if_true, Int.min_def, Int.max_def]
+  have h2 : ¬ b < 0 := by omega
+  simp only [h2, if_false, show ¬ ((0:Int) < 0) from by decide]
+  refine Prod.ext ?_ ?_ <;> simp only <;> (repeat' split) <;> omega
+
+theorem sliceLen_of_norm (d a b s e : Int) (h : sliceNorm d a b 1 = (s, e)) (hse : s ≤ e) :
+    sliceLen d a b 1 = (e - s).toNat := by
+  unfold sliceLen
+  simp only [h, show (1:Int) > 0 from by decide, if_true]
+  congr 1
+  omega
+
+theorem emod_shift (d i shift : Int) (hd : 0 < d) (hi0 : 0 ≤ i) (hi : i < d) :
+    (i - shift) % d = if i < shift % d then d - shift % d + i else i - shift % d := by
+  have hq := Int.mul_ediv_add_emod shift d
+  have h1 := Int.emod_nonneg shift (show d ≠ 0 by omega)
+  have h2 := Int.emod_lt_of_pos shift hd
+  have e : i - shift = (i - shift % d) - d * (shift / d) := by omega
+  rw [e, Int.sub_mul_emod_self_left]
+  split
+  · next hlt =>
+    have : (i - shift % d) % d = (i - shift % d + d) % d := by rw [Int.add_emod_right]
+    rw [this, Int.emod_eq_of_lt (by omega) (by omega)]
+    omega
+  · next hge =>
+    rw [Int.emod_eq_of_lt (by omega) (by omega)]
+
+theorem roll_idx (d big : Nat) (shift : Int) (hd : 0 < d) (hbig : d ≤ big) :
+    roll.stepIdx d big (roll.redShift d shift) = roll.specIdx d shift := by
+  unfold roll.redShift
+  simp only [hd, if_true, gt_iff_lt]
+  have h1 := Int.emod_nonneg shift (show (d : Int) ≠ 0 by omega)
+  have h2 := Int.emod_lt_of_pos shift (show (0 : Int) < d by omega)
+  generalize hr : shift % (d : Int) = r at *
+  unfold roll.stepIdx roll.specIdx sliceIdx
+  have hneg : ¬ r < 0 := by omega
+  simp only [hneg, if_false]
+  have n1 := sliceNorm_pos d ((d:Int) - r) big (by omega) (by omega) (by omega) (by omega)
+  have n2 := sliceNorm_pos' d ((d:Int) - r) (by omega) (by omega) (by omega)
+  have l1 := sliceLen_of_norm _ _ _ _ _ n1 (by omega)
+  have l2 := sliceLen_of_norm _ _ _ _ _ n2 (by omega)
+  rw [l1, l2, n1, n2]
+  apply List.ext_getElem
+  · simp; omega
+  · intro i hi1 hi2
+    have hi : i < d := by simpa using hi2
+    simp only [List.getElem_map, List.getElem_range]
+    have hm := emod_shift d i shift (by omega) (by omega) (by omega)
+    rw [hr] at hm
+    rw [hm]
+    by_cases hlt : (i : Int) < r
+    · have hlt' : i < ((d:Int) - ((d:Int) - r)).toNat := by omega
+      rw [List.getElem_append_left (by simpa using hlt')]
+      simp only [List.getElem_map, List.getElem_range, hlt, if_true]
+      omega
+    · have hge : ((d:Int) - ((d:Int) - r)).toNat ≤ i := by omega
+      rw [List.getElem_append_right (by simpa using hge)]
+      simp only [List.getElem_map, List.getElem_range, hlt, if_false, List.length_map, List.length_range]
+      omega
+
+theorem knownProd_ofNat (l : List Nat) : knownProd (l.map (Int.ofNat ·)) = (numel l : Int) := by
+  induction l with
+  | nil => rfl
+  | cons x xs ih =>
+    have hx : ((Int.ofNat x) == -1) = false := by
+      have : Int.ofNat x ≠ -1 := by simp
+      simpa using this
+    simp only [List.map_cons, knownProd, hx, Bool.false_eq_true, if_false, ih, numel]
+    simp
+
+theorem knownProd_ones (k : Nat) (x : List Int) : knownProd (List.replicate k 1 ++ x) = knownProd x := by
+  induction k with
+  | zero => simp
+  | succ n ih =>
+    simp only [List.replicate_succ, List.cons_append, knownProd, ih]
+    simp
+
+theorem no_neg1_ofNat (l : List Nat) (k : Nat) :
+    (List.replicate k (1 : Int) ++ l.map (Int.ofNat ·)).any (· < -1) = false
+    ∧ countNeg1 (List.replicate k (1 : Int) ++ l.map (Int.ofNat ·)) = 0 := by
+  constructor
+  · rw [List.any_eq_false]
+    intro x hx
+    simp only [List.mem_append, List.mem_replicate, List.mem_map] at hx
+    rcases hx with ⟨_, rfl⟩ | ⟨a, _, rfl⟩ <;> simp <;> omega
+  · unfold countNeg1
+    rw [List.length_eq_zero_iff, List.filter_eq_nil_iff]
+    intro x hx
+    simp only [List.mem_append, List.mem_replicate, List.mem_map] at hx
+    rcases hx with ⟨_, rfl⟩ | ⟨a, _, rfl⟩ <;> simp <;> omega
+
+theorem reshape_pad_ones (s : Shape) (k : Nat) :
+    reshape true s (List.replicate k (1 : Int) ++ s.map (Int.ofNat ·)) = some (List.replicate k 1 ++ s) := by
+  unfold reshape
+  obtain ⟨h1, h2⟩ := no_neg1_ofNat s k
+  simp only [h1, h2, Bool.false_eq_true, if_false, resolveZeros_true, Nat.lt_irrefl, gt_iff_lt, Nat.not_lt_zero]
+  have hk : knownProd (List.replicate k 1 ++ s.map (Int.ofNat ·)) = (numel s : Int) := by
+    rw [knownProd_ones, knownProd_ofNat]
+  simp only [hk, Int.toNat_natCast, if_true, Option.some.injEq, List.map_append, List.map_replicate, List.map_map]
+  simp
+  have : (Int.toNat ∘ fun (x : Nat) => (x : Int)) = id := by funext x; simp
+  rw [this, List.map_id]
+
+theorem tile_agrees_full (s : Shape) (dims : List Int) : tile.model s dims = tile.spec s dims := by
+  by_cases h : dims.length ≤ s.length
+  · exact tile_agrees s dims h
+  · have hlt : s.length < dims.length := by omega
+    have hgt : ¬ s.length > dims.length := by omega
+    unfold tile.model tile.spec
+    simp only [hgt, hlt, if_true, if_false, reshape_pad_ones]
+    unfold tileOp
+    have hz : s.length - dims.length = 0 := by omega
+    have hl : ((dims.length == (List.replicate (dims.length - s.length) 1 ++ s).length)) = true := by simp; omega
+    simp only [hz, List.replicate_zero, List.nil_append, hl, all_nonneg_iff, Bool.true_and]
+    cases hd : dims.any (· < 0) <;> simp
+
+theorem reshape_flat (s : Shape) : reshape false s [-1] = some [numel s] := by
+  unfold reshape
+  simp [countNeg1, resolveZeros, knownProd, Nat.mod_one]
+
+theorem knownProd_replicate_one (r : Nat) : knownProd (List.replicate r 1) = 1 := by
+  induction r with
+  | zero => rfl
+  | succ n ih => simp [List.replicate_succ, knownProd, ih]
+
+theorem resolveZeros_ones (az : Bool) (inp : Shape) (r i : Nat) :
+    resolveZeros az inp (List.replicate r 1) i = some (List.replicate r 1) := by
+  induction r generalizing i with
+  | zero => rfl
+  | succ n ih => simp [List.replicate_succ, resolveZeros, ih]
+
+theorem reshape_ones (r : Nat) : reshape false [1] (List.replicate r 1) = some (List.replicate r 1) := by
+  unfold reshape
+  have h1 : (List.replicate r (1:Int)).any (· < -1) = false := by
+    rw [List.any_eq_false]; intro x hx; simp [List.mem_replicate] at hx; simp [hx.2]
+  have h2 : countNeg1 (List.replicate r (1:Int)) = 0 := by
+    unfold countNeg1
+    rw [List.length_eq_zero_iff, List.filter_eq_nil_iff]
+    intro x hx; simp [List.mem_replicate] at hx; simp [hx.2]
+  simp only [h1, h2, Bool.false_eq_true, if_false, resolveZeros_ones, knownProd_replicate_one, gt_iff_lt, Nat.not_lt_zero]
+  simp [numel]
+
+theorem argmax_agrees (s : Shape) (dim : Option Int) (keep : Bool) :
+    argmax.model s dim keep = argmax.spec s dim keep := by
+  unfold argmax.model argmax.spec
+  cases dim with
+  | none =>
+    simp only [reshape_flat]
+    by_cases hn : numel s = 0
+    · simp [argOp, normAxis, hn]
+    · have hn' : (numel s == 0) = false := by simpa using hn
+      by_cases hr : s.length = 0
+      · have : s = [] := List.length_eq_zero_iff.mp hr
+        subst this
+        cases keep <;> simp [argOp, normAxis, numel, setAt, removeIdxs, squeezeAll]
+      · cases keep
+        · simp [argOp, normAxis, hn, hn', hr, removeIdxs]
+        · simp [argOp, normAxis, hn, hn', hr, setAt, reshape_ones]
+  | some d =>
+    by_cases hr : s.length = 0
+    · have : s = [] := List.length_eq_zero_iff.mp hr
+      subst this
+      simp only [List.length_nil, if_true, reshape_flat, torchDim, numel]
+      unfold argOp
+      cases hd : normAxis 1 d with
+      | none => simp [hd]
+      | some a =>
+        have ha : a = 0 := by
+          unfold normAxis at hd
+          split at hd
+          · injection hd with hd; omega
+          · split at hd
+            · injection hd with hd; omega
+            · simp at hd
+        subst ha
+        cases keep <;> simp [hd, setAt, removeIdxs, squeezeAll]
+    · simp only [hr, if_false, torchDim]
+      unfold argOp
+      cases hd : normAxis s.length d with
+      | none => simp
+      | some a =>
+        simp only []
+        by_cases hz : s.getD a 0 = 0
+        · simp [hz]
+        · have : (s.getD a 0 == 0) = false := by simpa using hz
+          simp [this, hz]
+
+/-- ceil facts: for c > 0, d > 0, n = (d + c - 1) / c:  1 ≤ n, (n-1)*c < d ≤ n*c -/
+theorem ceil_facts (d c : Nat) (hc : 0 < c) (hd : 0 < d) :
+    1 ≤ (d + c - 1) / c ∧ ((d + c - 1) / c - 1) * c < d ∧ d ≤ (d + c - 1) / c * c := by
+  have h1 := Nat.mul_div_le (d + c - 1) c
+  have h2 := Nat.lt_mul_div_succ (d + c - 1) hc
+  generalize (d + c - 1) / c = n at *
+  have hn : 1 ≤ n := by
+    rcases Nat.eq_zero_or_pos n with h | h
+    · subst h; simp at h2; omega
+    · exact h
+  rw [Nat.mul_comm] at h1
+  rw [Nat.mul_add, Nat.mul_one, Nat.mul_comm] at h2
+  refine ⟨hn, ?_, by omega⟩
+  have : (n - 1) * c + c = n * c := by
+    have : n = (n - 1) + 1 := by omega
+    conv => rhs; rw [this, Nat.add_mul, Nat.one_mul]
+  omega
+
+theorem bounds_sizes (d chunks : Nat) (hch : 0 < chunks) :
+    (chunk.bounds d chunks).map (fun b => b.2 - b.1) = chunk.specSizes d chunks
+    ∧ ∀ b ∈ chunk.bounds d chunks, b.1 ≤ b.2 ∧ b.2 ≤ d := by
+  unfold chunk.bounds chunk.specSizes
+  by_cases hc0 : (d + chunks - 1) / chunks = 0
+  · simp only [hc0, if_true]
+    constructor
+    · simp
+    · intro b hb; simp [List.mem_replicate] at hb; rw [hb.2]; simp
+  · simp only [hc0, if_false]
+    generalize hcdef : (d + chunks - 1) / chunks = c at *
+    have hc : 0 < c := by omega
+    have hd : 0 < d := by
+      rcases Nat.eq_zero_or_pos d with h | h
+      · subst h
+        have : (0 + chunks - 1) / chunks = 0 := Nat.div_eq_of_lt (by omega)
+        omega
+      · exact h
+    obtain ⟨hn1, hlo, hhi⟩ := ceil_facts d c hc hd
+    generalize hndef : (d + c - 1) / c = n at *
+    have hmax : max n 1 = n := by omega
+    rw [hmax]
+    constructor
+    · apply List.ext_getElem
+      · simp; omega
+      · intro k h1 h2
+        have hk : k < n := by simpa using h1
+        simp only [List.getElem_map, List.getElem_range]
+        by_cases hlast : k < n - 1
+        · rw [List.getElem_append_left (by simpa using hlast)]
+          simp only [List.getElem_replicate]
+          have : (k + 1) * c ≤ (n - 1) * c := Nat.mul_le_mul_right c (by omega)
+          rw [Nat.add_mul, Nat.one_mul] at this
+          have hmin : min (k * c + c) d = k * c + c := by omega
+          rw [hmin]; omega
+        · have hkn : k = n - 1 := by omega
+          rw [List.getElem_append_right (by simp; omega)]
+          simp only [List.length_replicate, hkn, Nat.sub_self, List.getElem_cons_zero]
+          have : (n - 1) * c + c = n * c := by
+            have : n = (n - 1) + 1 := by omega
+            conv => rhs; rw [this, Nat.add_mul, Nat.one_mul]
+          have hmin : min ((n - 1) * c + c) d = d := by omega
+          rw [hmin]
+    · intro b hb
+      simp only [List.mem_map, List.mem_range] at hb
+      obtain ⟨k, hk, rfl⟩ := hb
+      simp only
+      have : (k + 1) * c ≤ n * c := Nat.mul_le_mul_right c (by omega)
+      have hkc : k * c ≤ (n - 1) * c := Nat.mul_le_mul_right c (by omega)
+      constructor <;> omega
+
+theorem mapM_some_of_forall {α β} (f : α → Option β) (g : α → β) (l : List α) (h : ∀ x ∈ l, f x = some (g x)) :
+    l.mapM f = some (l.map g) := by
+  induction l with
+  | nil => rfl
+  | cons x xs ih =>
+    rw [List.mapM_cons, h x (by simp), ih (fun y hy => h y (by simp [hy]))]
+    rfl
+
+theorem sliceOp_bounds (s : Shape) (dim : Int) (a b1 b2 : Nat) (ha : normAxis s.length dim = some a)
+    (h1 : b1 ≤ b2) (h2 : b2 ≤ s.getD a 0) :
+    sliceOp s dim (b1 : Int) (b2 : Int) 1 = some (setAt s a (b2 - b1)) := by
+  unfold sliceOp
+  simp only [show ((1:Int) == 0) = false from by decide, Bool.false_eq_true, if_false, ha]
+  have hn : sliceNorm (s.getD a 0 : Nat) (b1 : Int) (b2 : Int) 1 = ((b1 : Int), (b2 : Int)) := by
+    unfold sliceNorm clampI
+    simp only [show (1:Int) > 0 from by decide, if_true, Int.min_def, Int.max_def]
+    have e1 : ¬ (b1 : Int) < 0 := by omega
+    have e2 : ¬ (b2 : Int) < 0 := by omega
+    simp only [e1, e2, if_false]
+    refine Prod.ext ?_ ?_ <;> simp only <;> (repeat' split) <;> omega
+  have := sliceLen_of_norm _ _ _ _ _ hn (by omega)
+  rw [this]
+  congr 2
+  omega
+
+theorem specSizes_one (d : Nat) : chunk.specSizes d 1 = [d] := by
+  unfold chunk.specSizes
+  by_cases hd : d = 0
+  · subst hd; simp
+  · have h1 : (d + 1 - 1) / 1 = d := by simp
+    have h2 : (d + d - 1) / d = 1 := by
+      apply Nat.div_eq_of_lt_le <;> omega
+    simp [h1, hd, h2]
+
+theorem chunk_agrees (s : Shape) (chunks : Nat) (dim : Int) (out : List Shape)
+    (h : chunk.spec s chunks dim = some out) : chunk.model s chunks dim = some out := by
+  unfold chunk.spec at h
+  unfold chunk.model
+  split at h
+  · simp at h
+  · next hch =>
+    by_cases hr : s.length = 0
+    · simp [hr] at h
+    · simp only [hr, if_false] at h
+      cases ha : normAxis s.length dim with
+      | none => simp [ha] at h
+      | some a =>
+        simp only [ha, Option.some.injEq] at h
+        by_cases h1 : chunks = 1
+        · subst h1
+          rw [specSizes_one] at h
+          simp only [List.map_cons, List.map_nil, setAt_getD_self] at h
+          simp [h]
+        · simp only [h1, if_false]
+          have hch0 : 0 < chunks := by omega
+          obtain ⟨bs, bb⟩ := bounds_sizes (s.getD a 0) chunks hch0
+          by_cases hus : chunk.useSlices (s.getD a 0) chunks = true
+          · simp only [hus, if_true]
+            rw [mapM_some_of_forall _ (fun b => setAt s a (b.2 - b.1)) _
+              (fun b hb => sliceOp_bounds s dim a b.1 b.2 ha (bb b hb).1 (bb b hb).2)]
+            rw [← h, ← bs, List.map_map]
+            rfl
+          · simp only [hus, Bool.false_eq_true, if_false]
+            -- Split(num_outputs) branch: the bounds count equals `chunks` and the axis is non-empty
+            unfold chunk.useSlices at hus
+            simp only [Bool.or_eq_true, bne_iff_ne, ne_eq, beq_iff_eq, not_or, Decidable.not_not] at hus
+            obtain ⟨hlen, hd0⟩ := hus
+            have hd : 0 < s.getD a 0 := by omega
+            generalize hdd : s.getD a 0 = d at *
+            unfold chunk.bounds at hlen
+            unfold splitNumOutputs chunk.specSizes at *
+            generalize hcdef : (d + chunks - 1) / chunks = c at *
+            by_cases hc0 : c = 0
+            · exfalso
+              have h1' := Nat.lt_mul_div_succ (d + chunks - 1) hch0
+              rw [hcdef, hc0] at h1'
+              omega
+            · simp only [hc0, if_false, List.length_map, List.length_range] at hlen
+              obtain ⟨hn1, hlo, hhi⟩ := ceil_facts d c (by omega) hd
+              rw [hlen] at hn1 hlo hhi
+              have hcpos : 1 ≤ c := by omega
+              have hle : (chunks - 1) * 1 ≤ (chunks - 1) * c := Nat.mul_le_mul_left _ hcpos
+              have hcd : ¬ (chunks = 0 ∨ chunks > d) := by omega
+              simp only [hcd, if_false, hlo, if_true, Option.map_some]
+              rw [← h]
+              simp only [hc0, if_false, hlen]
+              have : max chunks 1 = chunks := by omega
+              rw [this]
+
+def markOnes (s : Shape) (ax : List Nat) : Shape := s.zipIdx.map (fun p => if ax.contains p.2 then 1 else p.1)
+
+theorem markOnes_length (s : Shape) (ax : List Nat) : (markOnes s ax).length = s.length := by
+  simp [markOnes]
+
+theorem markOnes_getElem (s : Shape) (ax : List Nat) (i : Nat) (h : i < (markOnes s ax).length) :
+    (markOnes s ax)[i] = if ax.contains i then 1 else s[i]'(by simpa [markOnes] using h) := by
+  simp [markOnes, List.getElem_zipIdx]
+
+theorem fold_set_markOnes (ax : List Nat) (acc : Shape) :
+    ax.foldl (fun acc a => acc.set a 1) acc = markOnes acc ax := by
+  induction ax generalizing acc with
+  | nil =>
+    apply List.ext_getElem
+    · simp [markOnes]
+    · intro i h1 h2; simp [markOnes, List.getElem_zipIdx]
+  | cons a rest ih =>
+    simp only [List.foldl_cons]
+    rw [ih]
+    apply List.ext_getElem
+    · simp [markOnes]
+    · intro i h1 h2
+      rw [markOnes_getElem, markOnes_getElem]
+      simp only [List.getElem_set, List.contains_cons]
+      by_cases hr : rest.contains i = true
+      · have hm : i ∈ rest := by simpa using hr
+        simp [hr, hm]
+      · have hr' : rest.contains i = false := by simpa using hr
+        simp only [hr', Bool.or_false, Bool.false_eq_true, if_false]
+        by_cases e : a = i
+        · subst e; simp
+        · have : (i == a) = false := by simpa using (fun h => e h.symm)
+          simp [e, this]
+
+theorem reduceOp_single (acc : Shape) (d : Int) (a : Nat) (h : normAxis acc.length d = some a) :
+    reduceOp acc [d] true = some (acc.set a 1) := by
+  unfold reduceOp normAxes
+  simp only [List.mapM_cons, List.mapM_nil, h]
+  simp only [bind, Option.bind, pure, List.isEmpty_cons, Bool.false_eq_true, if_false, if_true, Option.some.injEq]
+  have := fold_set_markOnes [a] acc
+  simp only [List.foldl_cons, List.foldl_nil] at this
+  rw [this]; rfl
+
+theorem fold_reduce (s : Shape) (ds : List Int) (ax : List Nat) (hr : s.length ≠ 0)
+    (h : ds.mapM (normAxis s.length) = some ax) :
+    ds.foldlM (fun acc d => reduceDyn acc [d] true) s = some (markOnes s ax) := by
+  have key : ∀ (ds : List Int) (ax : List Nat) (acc : Shape), acc.length = s.length →
+      ds.mapM (normAxis s.length) = some ax →
+      ds.foldlM (fun acc d => reduceDyn acc [d] true) acc = some (ax.foldl (fun acc a => acc.set a 1) acc) := by
+    intro ds
+    induction ds with
+    | nil => intro ax acc _ h; simp at h; subst h; rfl
+    | cons d ds ih =>
+      intro ax acc hl h
+      rw [List.mapM_cons] at h
+      cases ha : normAxis s.length d with
+      | none => simp [ha] at h
+      | some a =>
+        cases hm : ds.mapM (normAxis s.length) with
+        | none => simp [ha, hm] at h
+        | some ax' =>
+          simp [ha, hm] at h
+          subst h
+          have hacc : acc.length ≠ 0 := by omega
+          simp only [List.foldlM_cons, reduceDyn, hacc, if_false]
+          rw [reduceOp_single acc d a (by rw [hl]; exact ha)]
+          simp only [bind, Option.bind, List.foldl_cons]
+          exact ih ax' (acc.set a 1) (by simp [hl]) hm
+  rw [key ds ax s rfl h, fold_set_markOnes]
+
+theorem removeAux (ax : List Nat) (r s : List Nat) (n : Nat) (hl : r.length = s.length)
+    (h : ∀ i (h1 : i < r.length) (h2 : i < s.length), ax.contains (n + i) = false → r[i] = s[i]) :
+    ((r.zipIdx n).filter (fun p => !ax.contains p.2)).map (·.1)
+      = ((s.zipIdx n).filter (fun p => !ax.contains p.2)).map (·.1) := by
+  induction r generalizing s n with
+  | nil =>
+    have : s = [] := List.length_eq_zero_iff.mp hl.symm
+    subst this; rfl
+  | cons x xs ih =>
+    cases s with
+    | nil => simp at hl
+    | cons y ys =>
+      simp only [List.zipIdx_cons, List.filter_cons]
+      have hl' : xs.length = ys.length := by simpa using hl
+      have ih' := ih ys (n + 1) hl' (by
+        intro i h1 h2 hc
+        have := h (i + 1) (by simp; omega) (by simp; omega) (by rw [← hc]; congr 1; omega)
+        simpa using this)
+      by_cases hc : ax.contains n = true
+      · simp only [hc, Bool.not_true, Bool.false_eq_true, if_false]
+        exact ih'
+      · have hc' : ax.contains n = false := by simpa using hc
+        have hxy : x = y := by
+          have := h 0 (by simp) (by simp) (by simpa using hc')
+          simpa using this
+        simp only [hc', Bool.not_false, if_true, List.map_cons, hxy]
+        rw [ih']
+
+theorem removeIdxs_congr (ax : List Nat) (r s : Shape) (hl : r.length = s.length)
+    (h : ∀ i (h1 : i < r.length) (h2 : i < s.length), ax.contains i = false → r[i] = s[i]) :
+    removeIdxs r ax = removeIdxs s ax := by
+  unfold removeIdxs
+  exact removeAux ax r s 0 hl (by intro i h1 h2 hc; exact h i h1 h2 (by simpa using hc))
+
+theorem all_dims_agrees (s : Shape) (ds : List Int) (keep : Bool) (out : Shape)
+    (hr : s.length ≠ 0) (hne : ds ≠ [])
+    (h : torchReduce s ds keep = some out) : all_dims.model s (some ds) keep = some out := by
+  unfold torchReduce at h
+  have e : ds.mapM (torchDim s.length) = ds.mapM (normAxis s.length) := by
+    have : (fun d => torchDim s.length d) = normAxis s.length := by
+      funext d; unfold torchDim; simp only [hr, if_false]
+    show ds.mapM (fun d => torchDim s.length d) = _
+    rw [this]
+  rw [e] at h
+  cases hm : ds.mapM (normAxis s.length) with
+  | none => simp [hm] at h
+  | some ax =>
+    simp only [hm] at h
+    split at h
+    · simp at h
+    · next hdup =>
+      have hax : ax ≠ [] := by
+        intro hh; subst hh
+        cases ds with
+        | nil => exact hne rfl
+        | cons d ds' =>
+          rw [List.mapM_cons] at hm
+          cases h1 : normAxis s.length d <;> cases h2 : ds'.mapM (normAxis s.length) <;> simp [h1, h2] at hm
+      have haxe : ax.isEmpty = false := by cases ax <;> simp_all
+      simp only [haxe, Bool.false_eq_true, if_false] at h
+      unfold all_dims.model
+      cases ds with
+      | nil => exact absurd rfl hne
+      | cons d ds' =>
+        simp only [fold_reduce s (d :: ds') ax hr hm]
+        cases keep
+        · simp only [Bool.false_eq_true, if_false] at h ⊢
+          unfold squeezeOp normAxes
+          rw [markOnes_length, hm]
+          have hall : ax.all (fun a => (markOnes s ax).getD a 0 == 1) = true := by
+            rw [List.all_eq_true]
+            intro a ha
+            have hc : ax.contains a = true := by simpa using ha
+            by_cases hlt : a < (markOnes s ax).length
+            · simp [List.getD_eq_getElem?_getD, List.getElem?_eq_getElem hlt, markOnes_getElem, hc]
+              intro hn; exact absurd ha hn
+            · -- normalised axes are in range
+              exfalso
+              have : a < s.length := by
+                have hmem := ha
+                clear h
+                -- every element of ax comes from normAxis
+                have aux : ∀ (l : List Int) (q : List Nat), l.mapM (normAxis s.length) = some q → ∀ x ∈ q, x < s.length := by
+                  intro l
+                  induction l with
+                  | nil => intro q hq x hx; simp at hq; subst hq; simp at hx
+                  | cons t ts ih =>
+                    intro q hq x hx
+                    rw [List.mapM_cons] at hq
+                    cases h1 : normAxis s.length t with
+                    | none => simp [h1] at hq
+                    | some k =>
+                      cases h2 : ts.mapM (normAxis s.length) with
+                      | none => simp [h1, h2] at hq
+                      | some q' =>
+                        simp [h1, h2] at hq
+                        subst hq
+                        rcases List.mem_cons.mp hx with rfl | hx'
+                        · exact (normAxis_some s.length t _ h1).2.2
+                        · exact ih q' h2 x hx'
+                exact aux _ _ hm a hmem
+              rw [markOnes_length] at hlt
+              exact hlt this
+          simp only [hall, if_true]
+          rw [← h]
+          congr 1
+          apply removeIdxs_congr
+          · exact markOnes_length s ax
+          · intro i h1 h2 hc
+            rw [markOnes_getElem]
+            have hn : ¬ i ∈ ax := by simpa using hc
+            simp [hn]
+        · simp only [if_true] at h ⊢
+          exact h
+
+theorem knownProd_append (x y : List Int) : knownProd (x ++ y) = knownProd x * knownProd y := by
+  induction x with
+  | nil => simp [knownProd]
+  | cons t ts ih =>
+    simp only [List.cons_append, knownProd]
+    split
+    · exact ih
+    · rw [ih, Int.mul_assoc]
+
+theorem foldl_mul (l : List Int) (acc : Int) : l.foldl (· * ·) acc = acc * l.foldl (· * ·) 1 := by
+  induction l generalizing acc with
+  | nil => simp
+  | cons t ts ih => simp only [List.foldl_cons]; rw [ih, ih (1 * t)]; simp [Int.mul_assoc]
+
+theorem foldl_filter_eq_knownProd (l : List Int) : (l.filter (· != -1)).foldl (· * ·) 1 = knownProd l := by
+  induction l with
+  | nil => rfl
+  | cons t ts ih =>
+    by_cases h : t = -1
+    · subst h; simp [knownProd, ih]
+    · have hb : (t != -1) = true := by simpa using h
+      have hb2 : (t == -1) = false := by simpa using h
+      simp only [List.filter_cons, hb, if_true, List.foldl_cons, knownProd, hb2, Bool.false_eq_true, if_false]
+      rw [foldl_mul, ih]; simp
+
+theorem numel_split (s : Shape) (a : Nat) (h : a < s.length) :
+    numel s = numel (s.take a) * (s.getD a 0 * numel (s.drop (a + 1))) := by
+  induction s generalizing a with
+  | nil => simp at h
+  | cons x xs ih =>
+    cases a with
+    | zero => simp [numel]
+    | succ n =>
+      have := ih n (by simpa using h)
+      simp only [List.take_succ_cons, List.drop_succ_cons, List.getD_cons_succ, numel, this]
+      rw [Nat.mul_assoc]
+
+theorem sliceShape_head (s : Shape) (a : Nat) (h : a ≤ s.length) : sliceShape s 0 a = s.take a := by
+  unfold sliceShape
+  have := sliceNorm_pos' (s.length : Int) a (by omega) (by omega) (by omega)
+  simp [this]
+
+theorem sliceShape_tail (s : Shape) (a : Nat) (h : a < s.length) (hmax : (s.length : Int) ≤ INT64_MAX) :
+    sliceShape s ((a : Int) + 1) INT64_MAX = s.drop (a + 1) := by
+  unfold sliceShape
+  have := sliceNorm_pos (s.length : Int) ((a : Int) + 1) INT64_MAX (by omega) (by omega) (by omega) hmax
+  simp only [this]
+  have e1 : ((a : Int) + 1).toNat = a + 1 := by omega
+  rw [e1]
+  apply List.take_of_length_le
+  simp; omega
+
+def repl (q : Int) (z : Int) : Int := if z == -1 then q else z
+
+theorem count_zero_map (q : Int) (l : List Int) (h : countNeg1 l = 0) : l.map (repl q) = l := by
+  induction l with
+  | nil => rfl
+  | cons t ts ih =>
+    unfold countNeg1 at h ih
+    by_cases ht : t = -1
+    · subst ht; simp at h
+    · have hb : (t == -1) = false := by simpa using ht
+      simp only [List.filter_cons, hb, Bool.false_eq_true, if_false] at h
+      simp only [List.map_cons, repl, hb, Bool.false_eq_true, if_false, ih h]
+
+theorem count_cons (t : Int) (ts : List Int) :
+    countNeg1 (t :: ts) = (if t = -1 then 1 else 0) + countNeg1 ts := by
+  unfold countNeg1
+  by_cases ht : t = -1
+  · subst ht; simp; omega
+  · have hb : (t == -1) = false := by simpa using ht
+    simp [List.filter_cons, hb, ht]
+
+theorem knownProd_map_replace (q : Int) (hq : q ≠ -1) (l : List Int) (hc : countNeg1 l = 1) :
+    knownProd (l.map (repl q)) = q * knownProd l ∧ countNeg1 (l.map (repl q)) = 0 := by
+  induction l with
+  | nil => simp [countNeg1] at hc
+  | cons t ts ih =>
+    rw [count_cons] at hc
+    by_cases ht : t = -1
+    · subst ht
+      have hc0 : countNeg1 ts = 0 := by simpa using hc
+      have hq' : (q == -1) = false := by simpa using hq
+      simp only [List.map_cons, count_zero_map q ts hc0, repl, beq_self_eq_true, if_true, knownProd, hq',
+        Bool.false_eq_true, if_false]
+      refine ⟨trivial, ?_⟩
+      rw [count_cons]; simp [hq, hc0]
+    · have hb : (t == -1) = false := by simpa using ht
+      have hc1 : countNeg1 ts = 1 := by simpa [ht] using hc
+      obtain ⟨i1, i2⟩ := ih hc1
+      simp only [List.map_cons, repl, hb, Bool.false_eq_true, if_false, knownProd]
+      refine ⟨?_, ?_⟩
+      · show t * knownProd (ts.map (repl q)) = _
+        rw [i1, ← Int.mul_assoc, Int.mul_comm t q, Int.mul_assoc]
+      · rw [count_cons]; simp [ht]; exact i2
+
+theorem contains_iff_count (l : List Int) : l.contains (-1) = true ↔ countNeg1 l ≠ 0 := by
+  induction l with
+  | nil => simp [countNeg1]
+  | cons t ts ih =>
+    rw [count_cons]
+    by_cases ht : t = -1
+    · subst ht; simp
+    · have : ¬ (-1 : Int) = t := fun e => ht e.symm
+      have ih' : (-1 : Int) ∈ ts ↔ ¬ countNeg1 ts = 0 := by simpa using ih
+      simp [List.contains_cons, ht, this, ih']
+
+theorem resolve_spec (s : Shape) (a : Nat) (sizes : List Int) (mid : Shape)
+    (hinf : unflatten.inferSize (s.getD a 0) sizes = some mid) :
+    let sz := unflatten.resolveNeg1 s (a : Int) sizes
+    sz.any (· < -1) = false ∧ countNeg1 sz = 0 ∧ knownProd sz = ((s.getD a 0 : Nat) : Int) ∧ sz.map Int.toNat = mid := by
+  generalize hd : s.getD a 0 = d at *
+  unfold unflatten.inferSize at hinf
+  dsimp only at hinf
+  split at hinf
+  · simp at hinf
+  · next hany =>
+    have hany' : sizes.any (· < -1) = false := by simpa using hany
+    split at hinf
+    · simp at hinf
+    · next hcnt =>
+      have hall : ∀ t ∈ sizes, -1 ≤ t := by
+        intro t ht
+        have := hany
+        simp only [List.any_eq_true, not_exists, not_and, decide_eq_true_eq] at this
+        have := this t ht; omega
+      obtain ⟨kn, _⟩ := knownProd_nonneg sizes hall
+      unfold unflatten.resolveNeg1
+      have hto : ((a : Int)).toNat = a := by simp
+      simp only [hto, hd, foldl_filter_eq_knownProd]
+      split at hinf
+      · next h1 =>
+        -- exactly one -1
+        have hcont : sizes.contains (-1) = true := (contains_iff_count sizes).mpr (by omega)
+        split at hinf
+        · next hk =>
+          have hkpos : 0 < knownProd sizes := by omega
+          simp only [hcont, if_true, hkpos, gt_iff_lt]
+          have hkn : knownProd sizes = ((knownProd sizes).toNat : Int) := by omega
+          generalize hkk : (knownProd sizes).toNat = k at *
+          have hq : ((d : Int) / knownProd sizes) = ((d / k : Nat) : Int) := by rw [hkn]; simp
+          have hdk : d / k * k = d := Nat.div_mul_cancel (Nat.dvd_of_mod_eq_zero hk.2)
+          generalize hqn : d / k = qn at *
+          have hqne : ((qn : Nat) : Int) ≠ -1 := by omega
+          have hmap : sizes.map (fun z => if z == -1 then (d : Int) / knownProd sizes else z) = sizes.map (repl ((qn : Nat) : Int)) := by
+            rw [hq]; rfl
+          rw [hmap]
+          obtain ⟨p1, p2⟩ := knownProd_map_replace _ hqne sizes h1
+          refine ⟨?_, p2, ?_, ?_⟩
+          · rw [List.any_eq_false]
+            intro x hx
+            simp only [List.mem_map] at hx
+            obtain ⟨t, ht, rfl⟩ := hx
+            have := hall t ht
+            unfold repl
+            split <;> simp <;> omega
+          · rw [p1, hkn]
+            rw [← Int.natCast_mul, hdk]
+          · injection hinf with hinf
+            rw [← hinf, List.map_map]
+            apply List.map_congr_left
+            intro t ht
+            simp only [Function.comp, repl]
+            split <;> simp
+        · simp at hinf
+      · next h1 =>
+        have hc0 : countNeg1 sizes = 0 := by omega
+        have hcont : sizes.contains (-1) = false := by
+          cases hh : sizes.contains (-1) with
+          | false => rfl
+          | true => exact absurd hc0 ((contains_iff_count sizes).mp hh)
+        simp only [hcont, Bool.false_eq_true, if_false]
+        split at hinf
+        · next hk =>
+          injection hinf with hinf
+          refine ⟨hany', hc0, by omega, hinf⟩
+        · simp at hinf
+
+theorem reshape_exact (s : Shape) (tgt : List Int) (h1 : tgt.any (· < -1) = false) (h2 : countNeg1 tgt = 0)
+    (h3 : knownProd tgt = (numel s : Int)) : reshape true s tgt = some (tgt.map Int.toNat) := by
+  unfold reshape
+  simp only [h1, h2, Bool.false_eq_true, if_false, resolveZeros_true, gt_iff_lt, Nat.not_lt_zero, Nat.lt_irrefl]
+  simp [h3]
+
+theorem any_append_false (x y : List Int) (p : Int → Bool) (hx : x.any p = false) (hy : y.any p = false) :
+    (x ++ y).any p = false := by simp [List.any_append, hx, hy]
+
+theorem ofNat_list_facts (l : List Nat) :
+    (l.map (Int.ofNat ·)).any (· < -1) = false ∧ countNeg1 (l.map (Int.ofNat ·)) = 0 := by
+  have := no_neg1_ofNat l 0
+  simpa using this
+
+theorem countNeg1_append (x y : List Int) : countNeg1 (x ++ y) = countNeg1 x + countNeg1 y := by
+  simp [countNeg1, List.filter_append]
+
+theorem unflatten_agrees (s : Shape) (dim : Int) (sizes : List Int) (out : Shape)
+    (hmax : (s.length : Int) ≤ INT64_MAX)
+    (h : unflatten.spec s dim sizes = some out) : unflatten.model s dim sizes = some out := by
+  unfold unflatten.spec at h
+  split at h
+  · simp at h
+  · by_cases hr : s.length = 0
+    · simp [hr] at h
+    · simp only [hr, if_false] at h
+      cases ha : normAxis s.length dim with
+      | none => simp [ha] at h
+      | some a =>
+        simp only [ha] at h
+        cases hinf : unflatten.inferSize (s.getD a 0) sizes with
+        | none => rw [hinf] at h; simp at h
+        | some mid =>
+          rw [hinf] at h
+          simp only [Option.some.injEq] at h
+          obtain ⟨hnn, hav, halt⟩ := normAxis_some s.length dim a ha
+          have hdim : (if dim < 0 then (s.length : Int) + dim else dim) = (a : Int) := by
+            split
+            · next hneg => simp only [hneg, if_true] at hav; omega
+            · next hneg => simp only [hneg, if_false] at hav; omega
+          obtain ⟨r1, r2, r3, r4⟩ := resolve_spec s a sizes mid hinf
+          unfold unflatten.model
+          simp only [hdim]
+          rw [sliceShape_head s a (by omega), sliceShape_tail s a halt hmax]
+          -- the three trace-time cases build the same target
+          have htgt : (if (a : Int) = 0 then unflatten.resolveNeg1 s a sizes ++ (s.drop (a + 1)).map (Int.ofNat ·)
+              else if (a : Int) = (s.length : Int) - 1 then (s.take a).map (Int.ofNat ·) ++ unflatten.resolveNeg1 s a sizes
+              else (s.take a).map (Int.ofNat ·) ++ unflatten.resolveNeg1 s a sizes ++ (s.drop (a + 1)).map (Int.ofNat ·))
+              = (s.take a).map (Int.ofNat ·) ++ unflatten.resolveNeg1 s a sizes ++ (s.drop (a + 1)).map (Int.ofNat ·) := by
+            split
+            · next h0 =>
+              have : a = 0 := by omega
+              subst this; simp
+            · split
+              · next h1 =>
+                have : s.drop (a + 1) = [] := by apply List.drop_of_length_le; omega
+                simp [this]
+              · rfl
+          rw [htgt]
+          obtain ⟨f1, f2⟩ := ofNat_list_facts (s.take a)
+          obtain ⟨g1, g2⟩ := ofNat_list_facts (s.drop (a + 1))
+          rw [reshape_exact]
+          · simp only [List.map_append, List.map_map, r4]
+            have hid : (Int.toNat ∘ fun (x : Nat) => Int.ofNat x) = id := by funext x; simp
+            rw [hid, List.map_id, List.map_id, ← h]
+          · exact any_append_false _ _ _ (any_append_false _ _ _ f1 r1) g1
+          · rw [countNeg1_append, countNeg1_append, f2, r2, g2]
+          · rw [knownProd_append, knownProd_append, knownProd_ofNat, knownProd_ofNat, r3, numel_split s a halt]
+            simp [Int.mul_assoc]
+
+theorem reshape_1m (a : Nat) : reshape false [a] [1, -1] = some [1, a] := by
+  simp [reshape, countNeg1, resolveZeros, knownProd, numel, Nat.mod_one]
+theorem reshape_1m1 (a : Nat) : reshape false [a] [1, -1, 1] = some [1, a, 1] := by
+  simp [reshape, countNeg1, resolveZeros, knownProd, numel, Nat.mod_one]
+
+theorem atleast_agrees (n : Nat) (s : Shape) (hn : n = 1 ∨ n = 2 ∨ n = 3) : atleast.model n s = atleast.spec n s := by
+  rcases hn with rfl | rfl | rfl
+  · cases s with
+    | nil => decide
+    | cons a t => rfl
+  · match s with
+    | [] => decide
+    | [a] => show reshape false [a] [1, -1] = some [1, a]; exact reshape_1m a
+    | a :: b :: t => rfl
+  · match s with
+    | [] => decide
+    | [a] => show reshape false [a] [1, -1, 1] = some [1, a, 1]; exact reshape_1m1 a
+    | [a, b] => show unsqueeze1 [a, b] (-1) = some [a, b, 1]; simp [unsqueeze1, normAxis, insertOne]
+    | a :: b :: c :: t => rfl
+
+theorem gather_agrees (s idx : Shape) (dim : Int) (out : Shape)
+    (h : gather.spec s idx dim = some out) : gather.model s idx dim = some out := by
+  unfold gather.spec at h
+  unfold gather.model
+  cases ha : torchDim s.length dim with
+  | none => simp [ha] at h
+  | some a =>
+    simp only [ha] at h
+    by_cases hr : s.length = 0
+    · simp only [hr, if_true] at h ⊢
+      split at h
+      · next hl =>
+        injection h with h; subst h
+        have hs : s = [] := List.length_eq_zero_iff.mp hr
+        subst hs
+        by_cases h0 : idx.length = 0
+        · have : idx = [] := List.length_eq_zero_iff.mp h0
+          subst this; simp
+        · simp [h0, expandOp, bcastRev]
+      · simp at h
+    · simp only [hr, if_false] at h ⊢
+      have hn : normAxis s.length dim = some a := by
+        unfold torchDim at ha; simpa [hr] using ha
+      simp only [hn]
+      by_cases h0 : idx.length = 0
+      · have hi : idx = [] := List.length_eq_zero_iff.mp h0
+        subst hi
+        simp only [List.length_nil, if_true, List.length_cons] at h ⊢
+        by_cases hl : (0 + 1 : Nat) ≠ s.length
+        · simp [hl] at h
+        · simp only [hl, if_false] at h ⊢
+          split at h
+          · exact h
+          · simp at h
+      · simp only [h0, if_false] at h ⊢
+        by_cases hl : idx.length ≠ s.length
+        · simp [hl] at h
+        · simp only [hl, if_false] at h ⊢
+          split at h
+          · exact h
+          · simp at h
+
+theorem slice_agrees (s : Shape) (dim : Int) (start stop step : Option Int) (out : Shape)
+    (h : slice.spec s dim start stop step = some out) : slice.model s dim start stop step = some out := by
+  unfold slice.spec at h
+  unfold slice.model sliceOp
+  split at h
+  · simp at h
+  · next hst =>
+    have hpos : 0 < optI step 1 := by omega
+    have hne : (optI step 1 == 0) = false := by
+      have : optI step 1 ≠ 0 := by omega
+      simpa using this
+    simp only [hne, Bool.false_eq_true, if_false]
+    by_cases hr : s.length = 0
+    · simp [hr] at h
+    · simp only [hr, if_false] at h
+      cases ha : normAxis s.length dim with
+      | none => simp [ha] at h
+      | some a =>
+        simp only [ha, Option.some.injEq] at h ⊢
+        rw [← h]
+        congr 1
+        have := slice_len (s.getD a 0 : Nat) start stop step (by omega) hpos
+        omega
+
+theorem slice_scatter_agrees (s src : Shape) (dim : Int) (start stop : Option Int) (step : Int) (out : Shape)
+    (h : slice_scatter.spec s src dim start stop step = some out) :
+    slice_scatter.model s src dim start stop step = some out := by
+  unfold slice_scatter.spec at h
+  unfold slice_scatter.model
+  cases hs : slice.spec s dim start stop (some step) with
+  | none => simp [hs] at h
+  | some t =>
+    simp only [hs] at h
+    rw [slice_agrees s dim start stop (some step) t hs]
+    have hr : s.length ≠ 0 := by
+      intro h0
+      unfold slice.spec at hs
+      split at hs
+      · simp at hs
+      · simp [h0] at hs
+    split at h
+    · next ht => simp only [ht, hr, ne_eq, not_false_eq_true, and_self, if_true]; exact h
+    · simp at h
+
+theorem topk_agrees (s : Shape) (k dim : Int) (hr : s.length ≠ 0) : topk.model s k dim = topk.spec s k dim := by
+  unfold topk.model topk.spec
+  simp [hr]
 
 end OV.Lemmas.C08
